@@ -36,7 +36,7 @@ ASSUMPTIONS = ["reference fragmenter/reassembler in checks/netref.py (TMRh20 num
 CLAUSES = {"fragments": "ceil(n/24) frames, one id, first/more/last, descending counter, type in the last reserved byte",
            "reassembly": "a TMRh20-style receiver reassembles exactly the original message", "restored": "caller's header shows its original type after sending",
            "layout": "8 bytes: origin, destination, id little-endian 16 bit, type, reserved; short buffers refused"}
-PROBES = ["outage_healed_in_time", "outage_outlasted_the_retries", "stray_network_ack_during_fragment_wait", "forwarded_between_two_fragments", "reception_between_two_messages"]
+PROBES = ["outage_healed_in_time", "outage_outlasted_the_retries", "stray_network_ack_during_fragment_wait", "forwarded_between_two_fragments", "reception_between_two_messages", "write_began_with_an_unread_frame_in_the_radio"]
 SHRINK_KEYS = ("msgs", "faults")
 CHUNK = 20
 NDIRECT = 8
@@ -346,7 +346,17 @@ def _run(scn, w, net, res):
             r = node.write(f)
             box["after"] = (h.message_type, h.to_node, h.frame_id)
             return r
-        c = net.call(1, "write", do, timeout=20_000 * MS)
+        if mi_ == 0 and scn.get("faults") and not routed and (scn["seed"] // 2) % 2 == 0:
+            # history: a frame from the peer reached the sender's radio while its application was busy, and the application goes
+            # straight on to write() - the frame waits unread in the RX FIFO for the whole write, manual retries included
+            import circuitpython_nrf24l01.network.mixins as mx_
+            net.post(1, "busy", lambda node: mx_.time.sleep(0.006))
+            sim.advance(1 * MS)
+            cr0 = net.call(0, "write", lambda node: node.write(RF24NetworkFrame(RF24NetworkHeader(0o1, 10), b"early")), timeout=5000 * MS)
+            if cr0.done and cr0.result is True and net.nodes[1].radio.rx_fifo:
+                sim.count("write_began_with_an_unread_frame_in_the_radio")
+        c = net.post(1, "write", do)
+        net.wait(c, timeout=20_000 * MS)
         net.wait_quiet(quiet=8 * MS, timeout=2000 * MS)
         if not c.done or c.exc is not None:
             res.add("fragments", {"kind": "write_raised_or_hung", "exc": type(c.exc).__name__}, "write() %r" % (c.exc,))
